@@ -484,69 +484,117 @@ func runC02Location(c *Ctx) {
 	} else {
 		c.Errorf("anchor geom.(*vertexRecord).location does not resolve")
 	}
-	// the flag machine inside addLineString's closure
+	// the flag machine of addLineString: the parent is interpreted and its
+	// per-segment callback is driven for one modelled segment, so that values the
+	// parent computes once (sequence length, closedness) and the callback reads
+	// are handled wherever they are computed
+	par := c.P.Func("geom.(*doublyConnectedEdgeList).addLineString")
+	if par == nil || len(par.Params) < 3 {
+		c.Errorf("anchor addLineString does not resolve")
+		return
+	}
 	var clo *ssa.Function
-	if f := c.P.Func("geom.(*doublyConnectedEdgeList).addLineString"); f != nil {
-		for _, a := range f.AnonFuncs {
-			clo = a
-		}
+	for _, a := range par.AnonFuncs {
+		clo = a
 	}
 	if clo == nil {
-		c.Errorf("anchor addLineString closure does not resolve")
-		return
+		clo = par
 	}
 	fn := FuncName(clo)
 	problem, undec := "", ""
 	models := 0
-	// free variables: d, operand, ls, seq (cells in the parent frame)
-	var fvs []k4val
-	for _, fv := range clo.FreeVars {
-		fvs = append(fvs, k4val{kind: 3, s: "fv:" + fv.Name()})
-	}
-	edge := "geom.(*doublyConnectedEdgeList).addOrGetEdge(fv:d,$0)"
 	for _, op := range []float64{0, 1} {
-		flag := func(v, f string) string { return fmt.Sprintf("%s.%s.locations[%d].%s", edge, v, int(op), f) }
-		bools := []string{flag("start", "boundary"), flag("start", "interior"), flag("end", "boundary"), flag("end", "interior"),
-			"geom.(LineString).IsClosed(fv:ls)"}
-		// startIdx ($1) in {0,1}; segment length 2; seq length in {2,3}: covers first/last/middle segments
-		k4enumerate([]string{"$1", "geom.(Sequence).Length(fv:seq)"}, []float64{0, 1, 2, 3}, bools, func(m *Model) bool {
-			m.Num["fv:operand"] = op
-			m.Num["geom.(Sequence).Length($0)"] = 2
-			sl := m.Num["geom.(Sequence).Length(fv:seq)"]
-			si := m.Num["$1"]
+		for mask := 0; mask < 32*16 && problem == "" && undec == ""; mask++ {
+			fl := [4]bool{mask&1 != 0, mask&2 != 0, mask&4 != 0, mask&8 != 0} // start.boundary, start.interior, end.boundary, end.interior
+			closed := mask&16 != 0
+			si := float64((mask >> 5) & 3)
+			sl := float64((mask >> 7) & 3)
 			if sl < 2 || si+2 > sl {
-				return true
+				continue
 			}
 			models++
-			m.Missing = map[string]bool{}
+			m := &Model{Num: map[string]float64{}, Bool: map[string]bool{}, Missing: map[string]bool{}}
 			it := &k4interp{p: c.P, m: m, mem: map[string]k4val{}}
-			_, err := it.call(clo, []k4val{{kind: 3, s: "$0"}, {kind: 2, f: si}}, fvs)
-			if err != nil {
-				undec = fmt.Sprintf("%v %s", err, missingList(m))
-				return false
-			}
-			closed := m.Bool["geom.(LineString).IsClosed(fv:ls)"]
-			for _, v := range []string{"start", "end"} {
-				onB := !closed && ((v == "start" && si == 0) || (v == "end" && si+2 == sl))
-				b0, i0 := m.Bool[flag(v, "boundary")], m.Bool[flag(v, "interior")]
-				rd := func(f string, def bool) bool {
-					if x, ok := it.mem[flag(v, f)]; ok && x.kind == 1 {
-						return x.b
-					}
-					return def
+			var hookErr error
+			driven := false
+			it.onOpaque = func(name string, args []k4val) {
+				if !strings.HasSuffix(name, "forEachNonInteractingSegment") {
+					return
 				}
-				b1, i1 := rd("boundary", b0), rd("interior", i0)
+				for _, a := range args {
+					if a.kind != 7 {
+						continue
+					}
+					fnv, _ := a.v.(*ssa.Function)
+					if fnv == nil {
+						continue
+					}
+					var fvs []k4val
+					if a.s != "" {
+						for _, k := range strings.Split(a.s, "\x00") {
+							fvs = append(fvs, k4val{kind: 3, s: k})
+						}
+					}
+					driven = true
+					if _, err := it.call(fnv, []k4val{{kind: 3, s: "SEG"}, {kind: 2, f: si}}, fvs); err != nil && hookErr == nil {
+						hookErr = err
+					}
+				}
+			}
+			flagIdx := func(key string) int {
+				for k, suf := range []string{".start.locations[%d].boundary", ".start.locations[%d].interior", ".end.locations[%d].boundary", ".end.locations[%d].interior"} {
+					if strings.HasSuffix(key, fmt.Sprintf(suf, int(op))) {
+						return k
+					}
+				}
+				return -1
+			}
+			it.answer = func(key string, isBool bool) (k4val, bool) {
+				switch {
+				case isBool && strings.Contains(key, ").IsClosed("):
+					return k4val{kind: 1, b: closed}, true
+				case isBool && strings.Contains(key, "addOrGetEdge(") && flagIdx(key) >= 0:
+					return k4val{kind: 1, b: fl[flagIdx(key)]}, true
+				case !isBool && key == "geom.(Sequence).Length(SEG)":
+					return k4val{kind: 2, f: 2}, true
+				case !isBool && strings.HasPrefix(key, "geom.(Sequence).Length("):
+					return k4val{kind: 2, f: sl}, true
+				}
+				return k4val{}, false
+			}
+			args := []k4val{{kind: 3, s: "$0"}, {kind: 3, s: "$1"}, {kind: 2, f: op}}
+			for k := 3; k < len(par.Params); k++ {
+				args = append(args, k4val{kind: 3, s: fmt.Sprintf("$%d", k)})
+			}
+			if _, err := it.call(par, args, nil); err != nil || hookErr != nil || !driven {
+				undec = fmt.Sprintf("%v %v driven=%v %s", err, hookErr, driven, missingList(m))
+				break
+			}
+			for vi, v := range []string{"start", "end"} {
+				onB := !closed && ((v == "start" && si == 0) || (v == "end" && si+2 == sl))
+				b0, i0 := fl[2*vi], fl[2*vi+1]
+				b1, i1 := b0, i0
+				for k, x := range it.mem {
+					if x.kind != 1 || !strings.Contains(k, "addOrGetEdge(") {
+						continue
+					}
+					switch flagIdx(k) {
+					case 2 * vi:
+						b1 = x.b
+					case 2*vi + 1:
+						i1 = x.b
+					}
+				}
 				if b1 != (b0 != onB) {
 					problem = fmt.Sprintf("vertex %s with flags (boundary=%v, interior=%v) receiving %s: boundary becomes %v, the mod-2 rule requires %v", v, b0, i0, map[bool]string{true: "an endpoint", false: "an interior visit"}[onB], b1, b0 != onB)
-					return false
+					break
 				}
 				if !b1 && !i1 {
 					problem = fmt.Sprintf("vertex %s ends with neither flag set after a visit (flags before: boundary=%v interior=%v, endpoint=%v)", v, b0, i0, onB)
-					return false
+					break
 				}
 			}
-			return true
-		})
+		}
 	}
 	construct := "lineal boundary flag machine (mod-2 rule)"
 	switch {
